@@ -71,7 +71,7 @@ def evb_obligation(mode, prefix, final, cb=0, final_max=8, extra_defs=(), ndebug
     # loop bounds: payload copy loops run over at most everything stored (+ the final op), model loops are constant-bound
     copy = max(total + final_max, 24) + 2
     if fk in SEARCHERS: copy = total + 3          # byte scans/compares never look at more than the stored bytes (+ NUL of readln)
-    wlen = 1
+    wlen = 2 if fk in ("SEARCH_EOL", "READLN") else 1      # CRLF_STRICT searches for the 2-byte needle "\r\n"
     for d in extra_defs:
         if d.startswith("VP_WLEN="): wlen = int(d.split("=")[1])
     # freeing a multicast chain re-enters evbuffer_chain_free/evbuffer_decref_and_unlock_ once (parent chain, source buffer)
@@ -90,6 +90,8 @@ def evb_obligation(mode, prefix, final, cb=0, final_max=8, extra_defs=(), ndebug
               timeout=timeout, mem_gb=mem_gb, ndebug=ndebug)
     if solver is None and (nm in KISSAT_NAMES or any(k == "MCAST" for _, k, _ in prefix) or ((cb or ndebug) and fk in ("PULLUP", "EXPAND"))):
         solver = "kissat"      # minisat2 occasionally needs > 900 s on these small instances (measured), kissat 5-60 s
+    if fk == "READLN" and not any(k in ("MCAST", "ADDBUFREF") for _, k, _ in prefix) and not cb:
+        ob["instrument"] = [["--replace-calls", "evbuffer_decref_and_unlock_:vp_no_decref"]]
     if solver: ob["solver"] = solver
     if expect_fail: ob["expect_fail"] = expect_fail
     if known_finding: ob["known_finding"] = known_finding
@@ -244,8 +246,29 @@ def gen(mode, tier, cb=0, finals1=FINALS_1, finals2=FINALS_2, name_prefix="", **
             for fk in finals2: one(x + y, (A, fk))
     return obs
 
+G3_Q = [[(A, "REF", 2), (A, "ADD", 1)]]
+G3_T = G3_Q + [[(A, "REF", 2), (A, "ADD", 2)], [(A, "REF", 1), (A, "REF", 2), (A, "ADD", 1)]]
+def gen_search(mode, tier, **kw):
+    """reduced G3 form: small multi-chain buffers (bytes symbolic), needle of concrete length 1..2 (bytes symbolic), start / end
+    positions (and the start-pointer-NULL case, and the EOL style) case-split; oracle: first occurrence in ref/bytes.h"""
+    obs = []
+    for pre in (G3_T if tier == "thorough" else G3_Q):
+        for w in (1, 2):
+            obs.append(evb_split(mode, pre, (A, "SEARCH"), name_prefix="w%d_" % w, extra_defs=["VP_WLEN=%d" % w], timeout=900, mem_gb=4,
+                                 desc_extra="; needle length %d" % w, **kw))
+        for w in ((1, 2) if tier == "thorough" else (1,)):
+            obs.append(evb_split(mode, pre, (A, "SEARCH_RANGE"), name_prefix="w%d_" % w, extra_defs=["VP_WLEN=%d" % w], timeout=900, mem_gb=5,
+                                 desc_extra="; needle length %d" % w, **kw))
+        obs.append(evb_split(mode, pre, (A, "SEARCH_EOL"), extra_defs=["VP_EOL_SKIP_ANY"], timeout=900, mem_gb=4,
+                             desc_extra="; styles CRLF, CRLF_STRICT, LF, NUL", **kw))
+        ob = evb_split(mode, pre, (A, "SEARCH_EOL"), name_prefix="any_", extra_defs=["VP_EOL_ONLY_ANY"], timeout=900, mem_gb=4,
+                       desc_extra="; style ANY, cbmc pointer checks off (find_eol_char forms s+128 past the chain object)", **kw)
+        ob["cbmc"] = ob["cbmc"] + ["--no-pointer-check"]
+        obs.append(ob)
+    return obs
+
 def obligations(tier):
-    obs = gen(12, tier)
+    obs = gen(12, tier) + gen_search(12, tier)
     # the fully symbolic form of the recipe (size <= 8, no case split) on the core operations
     sym_prefixes = [[(A, "ADD", 16), (A, "ADD", 3)]] + ([[(A, "ADD", 15), (A, "DRAIN", 4)], [(A, "ADD", 3), (A, "REF", 2)]] if tier == "thorough" else [])
     for pre in sym_prefixes:
